@@ -474,10 +474,8 @@ def corpus():
         # records (a 3, b 2, c 2); polling: complete on 36 of the 120 orders; comparison (the CVRs say a 3, b 3, c 1): 48
         k2("POLLING", K2_TRUE, {"eta": 0.75}),
         k2("CARD_COMPARISON", K2_REPORTED, {"eta": 1.0}),
-        # finding F30 (theorem RiskLimit.pair_name_clash): candidates `a`, `a v b`, `b v c`, `c`, reported winners `a`,
-        # `a v b`: the pairs (a, b v c) and (a v b, c) both get the key `a v b v c`, no assertion compares `a` with
-        # `b v c`; on the cards `b v c` has 2 marks and `a` has 1, the audit completes in every order
-        clash_case(),
+        # (the election of finding F30 -- candidates `a`, `a v b`, `b v c`, `c` -- can no longer be built: since the
+        # repair make_plurality_assertions raises ValueError for it; its regression case lives in group `assorter`)
     ]
 
 
